@@ -520,75 +520,91 @@ def run_first_use(ctx):
 
 
 # -- workload -----------------------------------------------------------------
-def cases(ctx):
+def case_sources(ctx):
+    """The enumerated strata as separate generators, each with a cumulative share of the wall budget (run() stops a generator
+    whose share is used up and goes on with the next one: on a loaded machine the large enumerations must not take the
+    later strata, which have floors in MIN, with them)."""
     b = BOUNDS[ctx.tier]
-    idx = 0
     for name in 'ACD':
         ctx.stratum(name, exhaustive=False)
-    # K: constants (all transports)
-    for value, allow in (('', True), ([], True), ('@', True), ('!', False), ('  @  ', True), ('(@)', True),
-                         ('not !', True), ('not @', False), ('((!))', False)):
-        for via, fmt in (('dict', 'json'), ('file', 'json'), ('file', 'yaml')):
-            if ctx.mine(idx):
-                yield dict(s='K', value=value, allow=allow, via=via, fmt=fmt)
-            idx += 1
-    # G: sentences with `( not`, parentheses glued (also to the keyword); early, it is small
-    ctx.stratum('G', exhaustive=False)
-    gidx = 0
-    for n in range(1, b['LG'] + 1):
-        for seq in expr.sentences(n):
-            if not any(seq[i] == '(' and seq[i + 1] == 'not' for i in range(len(seq) - 1)):
-                continue
-            for mode in (0, 1 + gidx % (GLUE_MODES - 1)):
-                if ctx.mine(gidx + mode):
-                    yield dict(s='G', toks=list(seq), mode=mode, c=gidx // 2, fam=('role', 'attr', 'kw')[(gidx + mode) % 3])
-            gidx += 1
-    ctx.stratum('G', exhaustive=True)
-    # D: deep nesting (small; before the large enumerations so that a cut budget does not lose it)
-    for i, (d, ast, k) in enumerate(deep_asts()):
-        if ctx.mine(i):
-            yield dict(s='D', ast=ast, k=k, depth=d, fam='role' if i % 2 else 'attr')
-    ctx.stratum('D', exhaustive=True)
-    # A: exhaustive sentences
-    total = 0
-    for n in range(1, b['L'] + 1):
-        for seq in expr.sentences(n):
-            total += 1
-            if not ctx.mine(idx):
+    K_VALUES = (('', True), ([], True), ('@', True), ('!', False), ('  @  ', True), ('(@)', True),
+                ('not !', True), ('not @', False), ('((!))', False))
+    K_VIAS = (('dict', 'json'), ('file', 'json'), ('file', 'yaml'))
+
+    def small():
+        # K: constants (all transports)
+        idx = 0
+        for value, allow in K_VALUES:
+            for via, fmt in K_VIAS:
+                if ctx.mine(idx):
+                    yield dict(s='K', value=value, allow=allow, via=via, fmt=fmt)
                 idx += 1
-                continue
-            case = dict(s='A', toks=list(seq), fam=('role', 'attr', 'kw', 'role')[idx % 4])
-            if sum(1 for t in seq if t == 'c') >= 2 and idx % 2:
-                yield dict(s='A', toks=list(seq), fam=('role', 'kw')[idx % 2], reuse=1 + (idx // 2) % 2)
-            if idx % 7 == 3:
-                case['poison'] = POISON[(idx // 7) % len(POISON)]
-            if idx % 11 == 5:
-                case['reuse_as_default'] = (idx // 11) % 2
-            if idx % b['file_every'] == 0:
-                case.update(via='file', fmt='yaml' if (idx // b['file_every']) % 2 else 'json')
-            idx += 1
-            yield case
-    ctx.stratum('A', exhaustive=True)
-    ctx.count('A_space_size_seen_by_this_shard', total)
-    # AK: the same sentences with every leaf position taken by a leaf, `@` or `!` (at least one constant): constants INSIDE
-    # expressions - `x or @ and y`, `not ! and x`, `( @ ) or x` - meet every reducer
-    kidx = 0
-    for n in range(1, b['LK'] + 1):
-        for seq in expr.sentences(n):
-            npos = sum(1 for t in seq if t == 'c')
-            for fill in itertools.product('c@!', repeat=npos):
-                if all(f == 'c' for f in fill):
+        # G: sentences with `( not`, parentheses glued (also to the keyword); early, it is small
+        ctx.stratum('G', exhaustive=False)
+        gidx = 0
+        for n in range(1, b['LG'] + 1):
+            for seq in expr.sentences(n):
+                if not any(seq[i] == '(' and seq[i + 1] == 'not' for i in range(len(seq) - 1)):
                     continue
-                kidx += 1
-                if not ctx.mine(kidx):
+                for mode in (0, 1 + gidx % (GLUE_MODES - 1)):
+                    if ctx.mine(gidx + mode):
+                        yield dict(s='G', toks=list(seq), mode=mode, c=gidx // 2, fam=('role', 'attr', 'kw')[(gidx + mode) % 3])
+                gidx += 1
+        ctx.stratum('G', exhaustive=True)
+        # D: deep nesting (small; before the large enumerations so that a cut budget does not lose it)
+        for i, (d, ast, k) in enumerate(deep_asts()):
+            if ctx.mine(i):
+                yield dict(s='D', ast=ast, k=k, depth=d, fam='role' if i % 2 else 'attr')
+        ctx.stratum('D', exhaustive=True)
+
+    def sentences():
+        # A: exhaustive sentences
+        idx = len(K_VALUES) * len(K_VIAS)
+        total = 0
+        for n in range(1, b['L'] + 1):
+            for seq in expr.sentences(n):
+                total += 1
+                if not ctx.mine(idx):
+                    idx += 1
                     continue
-                yield dict(s='AK', toks=list(seq), fill=''.join(fill), fam=('role', 'attr', 'kw')[kidx % 3])
-    ctx.stratum('AK', exhaustive=True)
-    # C: exhaustive list shapes
-    for i, value in enumerate(list_shapes(ctx.tier)):
-        if ctx.mine(i):
-            yield dict(s='C', value=value)
-    ctx.stratum('C', exhaustive=True)
+                case = dict(s='A', toks=list(seq), fam=('role', 'attr', 'kw', 'role')[idx % 4])
+                if sum(1 for t in seq if t == 'c') >= 2 and idx % 2:
+                    yield dict(s='A', toks=list(seq), fam=('role', 'kw')[idx % 2], reuse=1 + (idx // 2) % 2)
+                if idx % 7 == 3:
+                    case['poison'] = POISON[(idx // 7) % len(POISON)]
+                if idx % 11 == 5:
+                    case['reuse_as_default'] = (idx // 11) % 2
+                if idx % b['file_every'] == 0:
+                    case.update(via='file', fmt='yaml' if (idx // b['file_every']) % 2 else 'json')
+                idx += 1
+                yield case
+        ctx.stratum('A', exhaustive=True)
+        ctx.count('A_space_size_seen_by_this_shard', total)
+
+    def constants_inside():
+        # AK: the same sentences with every leaf position taken by a leaf, `@` or `!` (at least one constant): constants INSIDE
+        # expressions - `x or @ and y`, `not ! and x`, `( @ ) or x` - meet every reducer
+        kidx = 0
+        for n in range(1, b['LK'] + 1):
+            for seq in expr.sentences(n):
+                npos = sum(1 for t in seq if t == 'c')
+                for fill in itertools.product('c@!', repeat=npos):
+                    if all(f == 'c' for f in fill):
+                        continue
+                    kidx += 1
+                    if not ctx.mine(kidx):
+                        continue
+                    yield dict(s='AK', toks=list(seq), fill=''.join(fill), fam=('role', 'attr', 'kw')[kidx % 3])
+        ctx.stratum('AK', exhaustive=True)
+
+    def lists():
+        # C: exhaustive list shapes
+        for i, value in enumerate(list_shapes(ctx.tier)):
+            if ctx.mine(i):
+                yield dict(s='C', value=value)
+        ctx.stratum('C', exhaustive=True)
+
+    return [(0.1, small), (0.42, sentences), (0.54, constants_inside), (0.65, lists), (0.8, lambda: cases_random(ctx))]
 
 
 def cases_random(ctx):
@@ -611,19 +627,17 @@ def cases_random(ctx):
 
 
 def run(ctx):
-    # cumulative shares of the wall budget: the enumerated strata two thirds of it (they end by themselves on an idle machine; a
-    # loaded thorough run once cut them at 0.8 and left nothing for B), the random ASTs up to 0.8, the strata that come
-    # last (overlapping operations, first use) keep a fifth
+    # cumulative shares of the wall budget (case_sources): every stratum ends by itself on an idle machine; on a loaded one a
+    # stratum whose share is used up is stopped and the next one starts (a loaded thorough run once left nothing for the
+    # strata after the large enumeration A); the strata that come last (overlapping operations, first use) keep a fifth
     contracts.parse_state_stacks_parallel()
     contracts.parse_rule_returns_check()
     real = Real()
-    for share, source in ((0.65, cases), (0.8, cases_random)):
+    for share, source in case_sources(ctx):
         ctx.reserve(share)
-        for case in source(ctx):
-            if ctx.expired():
-                for s in ctx.strata.values():
-                    s['exhaustive'] = False
-                break
+        for n, case in enumerate(source()):
+            if (n & 0x7) == 0 and ctx.expired():
+                break               # the stratum keeps exhaustive=False: it is set to True only where its enumeration ends
             check_case(ctx, real, case)
     ctx.release()
     # O: overlapping operations last (the line-level scheduler slows everything that runs after it is installed)
